@@ -31,7 +31,8 @@ var producerTexts = []string{"", "4", "5", "45", "2", "451 4.3.0 looks like a re
 	"timeout: i/o timeout", "deadline exceeded while reading the source", "ctx deadline exceeded", "canceled by caller", "eof from the source", "closed network connection"}
 
 var negDev = []string{"451:4.3.0_try_again_later", "554:5.7.1_rejected_by_policy", "drop"}
-var oddDev = []string{"251:2.1.5_will_forward", "252:2.0.0_cannot_verify", "250:2.0.0_custom_ok", "354:go_ahead", "220:hello", "550", "421:4.3.2_shutting_down"}
+var oddDev = []string{"250:2.0.0_Ok|2.0.0_second_line", "354:go|ahead", "raw=250-2.0.0_Ok|251_differs", "554:5.7.1_no|5.7.1_really_no|5.7.1_never",
+	"251:2.1.5_will_forward", "252:2.0.0_cannot_verify", "250:2.0.0_custom_ok", "354:go_ahead", "220:hello", "550", "421:4.3.2_shutting_down"}
 
 func mkMsgs(nm, nr int, enc byte, body []byte) []MsgSpec {
 	ms := make([]MsgSpec, nm)
@@ -171,7 +172,7 @@ func randomCase(rng *rand.Rand, prop string) *Case {
 	return c
 }
 
-var c20Kinds = []string{"plain", "esc-start", "esc-later", "ip-later", "multi-start", "multi-later", "esc-only", "not-esc"}
+var c20Kinds = []string{"plain", "esc-start", "esc-later", "ip-later", "multi-start", "multi-later", "esc-only", "not-esc", "multi3-start"}
 
 func c20Decision(rng *rand.Rand, code, kind int) string {
 	cls := code / 100
@@ -187,6 +188,8 @@ func c20Decision(rng *rand.Rand, code, kind int) string {
 		return fmt.Sprintf("%d:relay_to_10.2.3.4_denied", code)
 	case "multi-start":
 		return fmt.Sprintf("%d:%d.%d.%d_first_line|%d.%d.%d_second_line", code, cls, a, b, cls, a, b)
+	case "multi3-start":
+		return fmt.Sprintf("%d:%d.%d.%d_first_line|second_line_without_code|%d.%d.%d_third_line", code, cls, a, b, cls, a, b)
 	case "multi-later":
 		return fmt.Sprintf("%d:no_code_here|%d.%d.%d_on_the_second_line", code, cls, a, b)
 	case "esc-only":
@@ -432,6 +435,36 @@ func generate(r *hx.Run, prop string) []*Case {
 		enumScripts(18, 2, []string{"450:4.2.0_busy", "553:rejected_10.5.1.1_is_not_allowed", "drop"}, func(sc []smtpx.Decision) {
 			add(base(2, 1, 'q', allCaps, sc))
 		})
+	}
+	// multi-line replies (RFC 5321 4.2.1) at EVERY command position of a 2-message batch: accepting (the code the
+	// command expects) and rejecting, two and three lines; and the malformed variants (a continuation line with a
+	// different code, a missing final line), after which the server closes the connection
+	mlCode := map[int]int{0: 220, 2: 250, 3: 250, 4: 250, 5: 354, 6: 250, 7: 250, 8: 250, 9: 250, 10: 250, 11: 354, 12: 250, 13: 250, 14: 250, 15: 221}
+	for p := 0; p <= 15; p++ {
+		code, ok := mlCode[p]
+		if !ok {
+			continue // position 1 is EHLO: its reply is multi-line anyway, its text is the capability list
+		}
+		for _, d := range []string{
+			fmt.Sprintf("%d:2.0.0_first_line|2.0.0_queued_as_X", code),
+			fmt.Sprintf("%d:2.0.0_first_line|second_line|2.0.0_third_line", code),
+			"451:4.3.0_first_line|4.3.0_try_again_later",
+			"554:5.7.1_first_line|5.7.1_second_line|5.7.1_rejected_by_policy",
+			fmt.Sprintf("raw=%d-2.0.0_first_line|%d_a_different_code", code, code+1),
+			fmt.Sprintf("raw=%d-2.0.0_a_continuation_line_and_nothing_after_it", code),
+		} {
+			for _, prog := range []string{"das", "send"} {
+				c := base(2, 1, 'q', allCaps, scriptWith(map[int]string{p: d}))
+				c.Prog = prog
+				add(c)
+			}
+		}
+	}
+	// the same inside TLS (positions shifted by STARTTLS and the second EHLO) at end-of-data and RSET
+	for _, p := range []int{8, 10, 14} {
+		c := base(2, 1, 'q', append(append([]string{}, allCaps...), "STARTTLS"), scriptWith(map[int]string{p: "250:2.0.0_first_line|2.0.0_queued_as_X"}))
+		c.TLS, c.CapsTLS = 'M', allCaps
+		add(c)
 	}
 	// the other entry points (same oracles): DialAndSend, Dial+Send+Close, Send/Reset/Send, two smtp.Clients of one Client
 	for _, prog := range []string{"dasn", "send", "reset", "two"} {
